@@ -3,7 +3,7 @@ From Skv Require Import PyStrFacts Node GetTree Unsafe UnsafeFacts AuditFacts No
 
 Definition resolves_own (k : kind) : bool :=
   match k with
-  | KDict | KList | KSet | KTuple | KCtorReduce | KRandomState | KObject | KOperatorFunc
+  | KDict | KDefaultDict | KList | KSet | KTuple | KCtorReduce | KRandomState | KObject | KOperatorFunc
   | KFunction | KType | KNdArray | KRandomGenerator | KRandomGeneratorV1 | KRandomGeneratorV0 => true
   | _ => false
   end.
@@ -79,7 +79,7 @@ Section Good.
     - (* KDefaultDict *)
       destruct subs as [|a [|b [|? ?]]]; try (apply nothing_inv in H as [-> _]; constructor).
       go. repeat rewrite ?Forall_app. repeat split;
-        try (eapply Hs; [|eassumption]; simpl; auto); constructor; [exact I | constructor].
+        try (eapply Hs; [|eassumption]; simpl; auto); constructor; [apply OWN; reflexivity | constructor].
     - (* KMethod *)
       destruct subs as [|o [|[?|?|sl [| |f| |]] [|? ?]]]; try (apply nothing_inv in H as [-> _]; constructor).
       go. repeat rewrite ?Forall_app. split; [eapply Hs; [|eassumption]; simpl; auto | constructor; [exact I | constructor]].
